@@ -19,6 +19,8 @@ METRICS = [("euclidean", "dense32"), ("cosine", "dense32"), ("bit_hamming", "bit
 def err_kind(e):
     if isinstance(e, ValueError) and "compressed" in str(e):
         return "ValueError:compressed"
+    if isinstance(e, ValueError) and "updated_indices must be row numbers" in str(e):
+        return "ValueError:index-range"
     return type(e).__name__
 
 
@@ -34,8 +36,10 @@ def gen_history(rng, length):
             ops.append(("update", int(rng.choice([1, 4, 15])), 0))
         elif r < 0.70:
             ops.append(("update", 0, int(rng.choice([1, 3, 8]))))
-        elif r < 0.80:
+        elif r < 0.78:
             ops.append(("update", int(rng.choice([1, 6])), int(rng.choice([1, 4]))))
+        elif r < 0.82:
+            ops.append(("update-bad", int(rng.choice([0, 2])), str(rng.choice(["high", "negative"]))))
         elif r < 0.90:
             ops.append(("pickle",))
         else:
@@ -102,6 +106,20 @@ def check_history(res, rng, metric, kind, length):
                 for j in range(nf):
                     logical.append((cur_n + j, 0)); content[(cur_n + j, 0)] = np.asarray(fresh_l[j])
             model_ops.append("update %d | %s | %s" % (nf, " ".join(map(str, repl)), vo_tokens()))
+        elif op[0] == "update-bad":
+            # replacement rows addressed by an invalid row number: must be refused with the index untouched
+            cur_n = len(logical)
+            bad = cur_n + 2 if op[2] == "high" else -1
+            repl = [1, bad] if cur_n > 1 else [bad]
+            upd, _ = api.gen_dataset(rng, metric, kind, len(repl), dim)
+            fresh = api.gen_dataset(rng, metric, kind, op[1], dim)[0] if op[1] else None
+            try:
+                idx.update(xs_fresh=fresh, xs_updated=upd, updated_indices=repl)
+                err = "accepted-invalid-index"
+            except Exception as e:  # noqa
+                err = err_kind(e)
+            # the model takes natural numbers: an invalid index is encoded as an index past the end
+            model_ops.append("update %d | %s | %s" % (op[1], " ".join(str(i if i >= 0 else cur_n + 7) for i in repl), vo_tokens()))
         elif op[0] == "pickle":
             try:
                 idx = pickle.loads(pickle.dumps(idx))
@@ -133,7 +151,7 @@ def check_history(res, rng, metric, kind, length):
             if probs:
                 res.violation(key + ":answer-" + probs[0][0], "after %s: %s" % (list(done), probs[0][1]), case)
                 return
-        if err not in (None, "ValueError:compressed"):
+        if err not in (None, "ValueError:compressed", "ValueError:index-range"):
             res.violation(key + ":exception", "operation %s raised %s after %s" % (list(op), err, list(done[:-1])), case)
             return
     # ---- correspondence with the life-cycle model -------------------------------------------
